@@ -273,6 +273,10 @@ inductive Outcome
   | crash (what : String)
 deriving Repr, DecidableEq
 
+def isApp : Outcome → Bool
+  | .app .. => true
+  | _ => false
+
 structure Limits where
   contentLimit : Nat := 131072
   multipartLimit : Nat := 131072
@@ -283,6 +287,18 @@ deriving Repr
 and throw `std::length_error` -/
 def vecResizeOk (n : Int) : Bool := 0 ≤ n && n < 2 ^ 62
 
+/-- `socket_.async_read_some(buffer(p,want))` as a content reader -/
+def sockRead (want : Nat) (s : Segs) : Except Err (Bytes × Segs) :=
+  match readSome want s with
+  | none => .error .eof
+  | some r => .ok r
+
+/-- `request::get_buffer().second`: the whole remainder (`read_full`) or at most one buffer -/
+def wantOf (chunk : Option Nat) (remaining : Nat) : Nat :=
+  match chunk with
+  | none => remaining
+  | some b => min remaining b
+
 /-- `connection::load_content` / `on_some_content_read` loop over an abstract reader.
 `chunk = none`: `read_full` (one buffer of the whole length); `some b`: buffers of `b` bytes.
 Returns the bytes delivered (`post_data` resp. the concatenated filter chunks). -/
@@ -292,16 +308,27 @@ def contentLoop {σ : Type} (rd : Nat → σ → Except Err (Bytes × σ)) (chun
   | fuel + 1, remaining, acc, st =>
     if remaining == 0 then (.ok acc, st)
     else
-      let want := match chunk with
-        | none => remaining
-        | some b => min remaining b
-      match rd want st with
+      match rd (wantOf chunk remaining) st with
       | .error e => (.error e, st)
       | .ok (got, st') => contentLoop rd chunk fuel (remaining - got.length) (acc ++ got) st'
 
-/-- `context::on_headers_ready` … `on_request_ready` for one request whose headers were accepted. -/
-def runRequest {σ : Type} (lim : Limits) (rd : Nat → σ → Except Err (Bytes × σ)) (h : Head) (st : σ) :
-    Outcome × σ :=
+/-- what `context::on_headers_ready` (pool lookup, `request::prepare`, the filter application's early
+`main()`, `request::on_content_start`) decides for a request whose headers were accepted -/
+inductive Plan
+  /-- decided without reading content -/
+  | done (o : Outcome)
+  /-- read `n > 0` content bytes (`chunk = none`: one `read_full` buffer, `some b`: buffers of `b` bytes),
+  then finish with `fin`; a read error drops the connection (`pre`: the filter application is attached,
+  so its `on_error` runs) -/
+  | read (n : Nat) (chunk : Option Nat) (pre : Bool) (fin : Bytes → Outcome)
+
+/-- buffer size of the chunked (content filter) path: `request::setbuf(atoi(bs))` clamps below 1 -/
+def chunkOf (lim : Limits) (pre : Bool) (bsArg : Bytes) : Option Nat :=
+  if pre then
+    some (if !bsArg.isEmpty then (let n := atoi bsArg; if n < 1 then 1 else n.toNat) else lim.bufSize)
+  else none
+
+def requestPlan (lim : Limits) (h : Head) : Plan :=
   let kind := kindOf h.scriptName
   -- request::prepare
   let (gok, g) := parseForm (h.queryString.length + 1) h.queryString []
@@ -314,34 +341,40 @@ def runRequest {σ : Type} (lim : Limits) (rd : Nat → σ → Except Err (Bytes
   let pre := kind == .filter && cl != 0
   let bsArg := formGet get [98, 115]
   let abortArg := formGet get [97, 98, 111, 114, 116]
-  let bufSize := if pre && !bsArg.isEmpty then (let n := atoi bsArg; if n < 1 then 1 else n.toNat) else lim.bufSize
   if pre && !abortArg.isEmpty then
     -- abort_upload from main(): translate_exception; d->app not yet set, so no on_error
     let code := atoi abortArg
-    (.status (if code < 400 || code > 599 then 400 else code.toNat) true false, st)
+    .done (.status (if code < 400 || code > 599 then 400 else code.toNat) true false)
   else
   -- request::on_content_start
   match Gen.contentStartEarly cl with
-  | some 0 => (.app kind pre (mkView [] []), st)
-  | some code => (.status code pre pre, st)
+  | some 0 => .done (.app kind pre (mkView [] []))
+  | some code => .done (.status code pre pre)
   | none =>
     let mt := mediaType h.contentType
     let isMp := mt == mtMultipart
-    if isMp && cl > lim.multipartLimit then (.status Gen.tooLargeMultipart pre pre, st)
-    else if !isMp && cl > lim.contentLimit then (.status Gen.tooLarge pre pre, st)
-    else if isMp && !pre then (.multipart, st)
-    else if !pre && !vecResizeOk cl then (.crash "post_data.resize(negative): std::length_error", st)
-    else if cl ≤ 0 then (.crash "content loop entered with non-positive length", st)
+    if isMp && cl > lim.multipartLimit then .done (.status Gen.tooLargeMultipart pre pre)
+    else if !isMp && cl > lim.contentLimit then .done (.status Gen.tooLarge pre pre)
+    else if isMp && !pre then .done .multipart
+    else if !pre && !vecResizeOk cl then .done (.crash "post_data.resize(negative): std::length_error")
+    else if cl ≤ 0 then .done (.crash "content loop entered with non-positive length")
     else
-      let n := cl.toNat
-      match contentLoop rd (if pre then some bufSize else none) (n + 1) n [] st with
-      | (.error e, st') => (.aborted e pre pre, st')
-      | (.ok body, st') =>
+      .read cl.toNat (chunkOf lim pre bsArg) pre fun body =>
         if !pre && mt == mtFormUrlencoded then
           let (ok, f) := parseForm (body.length + 1) body []
           match ok, Gen.postParseFailure with
-          | false, some code => (.status code false false, st')
-          | _, _ => (.app kind pre (mkView f body), st')
-        else (.app kind pre (mkView [] body), st')
+          | false, some code => .status code false false
+          | _, _ => .app kind pre (mkView f body)
+        else .app kind pre (mkView [] body)
+
+/-- `connection::load_content` … `context::on_request_ready` over an abstract content reader -/
+def runRequest {σ : Type} (lim : Limits) (rd : Nat → σ → Except Err (Bytes × σ)) (h : Head) (st : σ) :
+    Outcome × σ :=
+  match requestPlan lim h with
+  | .done o => (o, st)
+  | .read n chunk pre fin =>
+    match contentLoop rd chunk (n + 1) n [] st with
+    | (.error e, st') => (.aborted e pre pre, st')
+    | (.ok body, st') => (fin body, st')
 
 end Cppcms.C01
